@@ -48,8 +48,15 @@ Fixpoint oracle11 (p : proto) (wire : bytes) (unread_before : N) (obs : list ste
       && oracle11 p wire unread r
   end.
 
-(* model vs observation *)
-Fixpoint agree11 (m : list (sstep * N * list aev)) (obs : list step11) : bool :=
+(* model vs observation: same class, same detail, same number of bytes left, and the bytes
+   allocated during the step fit the model's trace: at most slack + 4|input| + twice the sizes
+   of the trace, and at least the largest buffer of the trace (minus slack) *)
+Definition sum_sizes (tr : list aev) : N := fold_right (fun a acc => asize a + acc) 0 tr.
+Definition max_size (tr : list aev) : N := fold_right (fun a acc => N.max (asize a) acc) 0 tr.
+Definition alloc_fits (lw : N) (tr : list aev) (alloc : N) : bool :=
+  (alloc <=? slack + 4 * lw + 2 * sum_sizes tr) && (max_size tr <=? alloc + slack).
+
+Fixpoint agree11 (lw : N) (m : list (sstep * N * list aev)) (obs : list step11) : bool :=
   match m, obs with
   | [], [] => true
   | (st, mu, tr) :: m', (class, detail, unread, alloc) :: o' =>
@@ -58,9 +65,10 @@ Fixpoint agree11 (m : list (sstep * N * list aev)) (obs : list step11) : bool :=
            rounds a huge block up to a multiple of 4 MiB) *)
         existsb (fun a => (asize a <=? alloc) && (alloc <? asize a + 8 * slack)) tr
       else
+        alloc_fits lw tr alloc &&
         match st with
-        | SReq r => (class =? 0) && (detail =? rtype r) && (mu =? unread) && agree11 m' o'
-        | SErr e => (class =? 1) && (detail =? e) && (mu =? unread) && agree11 m' o'
+        | SReq r => (class =? 0) && (detail =? rtype r) && (mu =? unread) && agree11 lw m' o'
+        | SErr e => (class =? 1) && (detail =? e) && (mu =? unread) && agree11 lw m' o'
         | SClose => (class =? 2) && match m', o' with [], [] => true | _, _ => false end
         end
   | _, _ => false
@@ -69,7 +77,7 @@ Fixpoint agree11 (m : list (sstep * N * list aev)) (obs : list step11) : bool :=
 Definition check11 (c : case11) : N :=
   let '(p, wire, obs) := c in
   let model_ok := match serve (parser_of p) wire with
-                  | Some m => agree11 m obs
+                  | Some m => agree11 (len wire) m obs
                   | None => false
                   end in
   if negb (oracle11 p wire (len wire) obs) then (if model_ok then 3 else 2)
